@@ -7,6 +7,7 @@ import (
 	"runtime/debug"
 	"sort"
 	"testing"
+	"time"
 
 	"github.com/vimeo/dials"
 	"pgregory.net/rapid"
@@ -45,6 +46,36 @@ type GNode struct {
 	// an exported reference field the stacker skips: still part of the graph
 	// the deep copier has to reproduce
 	Skip *GNode `dials:"-"`
+	// a node type that implements encoding.TextUnmarshaler and still has
+	// exported references: stacking treats it as a leaf, the copier may not
+	T *TNode
+}
+
+// TNode is a text-unmarshalable struct with exported reference fields: the
+// only struct shape that can refer to itself through a plain pointer field in a
+// config type.
+type TNode struct {
+	Name string
+	Peer *TNode
+	To   *GNode
+	Tags map[string]int
+	List []*TNode
+}
+
+func (t *TNode) UnmarshalText(b []byte) error { t.Name = string(b); return nil }
+
+// PEdge is held BY VALUE in interfaces; its unexported fields are part of the value.
+type PEdge struct {
+	To  *GNode
+	w   int
+	tag string
+}
+
+type TDesc struct {
+	Peer int   `json:"peer"` // tnode index, -1 = nil
+	To   int   `json:"to"`   // node index, -1 = nil
+	Tags int   `json:"tags"` // tag map pool index, -1 = nil
+	List []int `json:"list,omitempty"`
 }
 
 type GLeaf struct {
@@ -67,6 +98,8 @@ type GRoot struct {
 	// back-references to the config root itself (through a slice: a config
 	// type cannot contain itself through a struct-field pointer)
 	Self []*GRoot
+	// a text-unmarshalable struct with references at the root: a leaf for stacking
+	T *TNode
 }
 
 // ---- descriptors ----
@@ -105,6 +138,7 @@ type NodeDesc struct {
 	PPP1     int                `json:"pp_p1,omitempty"`   // pool index + 1 of a shared **GNode
 	Groups   map[string]int     `json:"groups,omitempty"`  // key -> node whose Kids slice is the (shared) value
 	Buckets  map[string]int     `json:"buckets,omitempty"` // key -> tag map pool index (shared with leaves)
+	TP1      int                `json:"t_p1,omitempty"`    // tnode index + 1
 }
 
 type GraphDesc struct {
@@ -115,6 +149,7 @@ type GraphDesc struct {
 	PSlices  [][]int          `json:"p_slices,omitempty"` // pool of *[]*GNode (node indices)
 	PMaps    []int            `json:"p_maps,omitempty"`   // pool of *map[string]int (tag map indices)
 	PPtrs    []int            `json:"p_ptrs,omitempty"`   // pool of **GNode (node indices)
+	TNodes   []TDesc          `json:"t_nodes,omitempty"`
 }
 
 type RootDesc struct {
@@ -127,6 +162,7 @@ type RootDesc struct {
 	Count   int     `json:"count"` // index into the shared *int pool, -1 = nil
 	Other   int     `json:"other"`
 	SelfRef bool    `json:"self_ref,omitempty"` // Self holds a pointer to this very root
+	TP1     int     `json:"t_p1,omitempty"`     // tnode index + 1
 }
 
 type C03Case struct {
@@ -150,7 +186,7 @@ func genAny(t *rapid.T, n, pools int, selfNode int, label string) AnyDesc {
 	// typed nils: an interface that holds a nil map / slice / pointer is not a nil interface
 	kinds := []string{"nil", "nil", "int", "string", "nilmap", "nilslice", "nilptr"}
 	if n > 0 {
-		kinds = append(kinds, "node", "node", "nodeslice", "nodearray", "nodeval", "attrs", "islice", "selfslice")
+		kinds = append(kinds, "node", "node", "nodeslice", "nodearray", "nodeval", "attrs", "islice", "selfslice", "edgeval", "time")
 		if pools > 0 {
 			kinds = append(kinds, "nodemap")
 		}
@@ -160,6 +196,11 @@ func genAny(t *rapid.T, n, pools int, selfNode int, label string) AnyDesc {
 	switch k {
 	case "node", "nodearray", "nodeval", "attrs", "selfslice":
 		a.Node = rapid.IntRange(0, n-1).Draw(t, label+"_node")
+	case "edgeval":
+		a.Node = rapid.IntRange(-1, n-1).Draw(t, label+"_node")
+		a.Num = rapid.IntRange(1, 99).Draw(t, label+"_num")
+	case "time":
+		a.Num = rapid.IntRange(1, 99).Draw(t, label+"_num")
 	case "nodeslice", "islice":
 		m := rapid.IntRange(0, 3).Draw(t, label+"_len")
 		lo := 0
@@ -217,6 +258,20 @@ func genGraph(t *rapid.T) GraphDesc {
 	for i, k := 0, rapid.IntRange(0, 2).Draw(t, "pmaps"); i < k && len(g.TagMaps) > 0; i++ {
 		g.PMaps = append(g.PMaps, rapid.IntRange(0, len(g.TagMaps)-1).Draw(t, "pm_el"))
 	}
+	nt := 0
+	if n > 0 {
+		nt = rapid.IntRange(0, 3).Draw(t, "tnodes")
+	}
+	for i := 0; i < nt; i++ {
+		td := TDesc{Peer: rapid.IntRange(-1, nt-1).Draw(t, "t_peer"), To: genNodeRef(t, n, "t_to"), Tags: -1}
+		if len(g.TagMaps) > 0 {
+			td.Tags = rapid.IntRange(-1, len(g.TagMaps)-1).Draw(t, "t_tags")
+		}
+		for j, k := 0, rapid.IntRange(0, 2).Draw(t, "t_list"); j < k; j++ {
+			td.List = append(td.List, rapid.IntRange(-1, nt-1).Draw(t, "t_el"))
+		}
+		g.TNodes = append(g.TNodes, td)
+	}
 	for i := 0; i < n; i++ {
 		nd := NodeDesc{Next: genNodeRef(t, n, "next"), Pair: [2]int{genNodeRef(t, n, "pair0"), genNodeRef(t, n, "pair1")}, ByName: -1, KidsOf: -1}
 		nd.Duo = [2]int{genNodeRef(t, n, "duo0"), genNodeRef(t, n, "duo1")}
@@ -257,6 +312,9 @@ func genGraph(t *rapid.T) GraphDesc {
 				nd.Buckets[fmt.Sprintf("b%d", j)] = rapid.IntRange(0, len(g.TagMaps)-1).Draw(t, "bucket_of")
 			}
 		}
+		if nt > 0 && rapid.Bool().Draw(t, "has_t") {
+			nd.TP1 = rapid.IntRange(0, nt-1).Draw(t, "t") + 1
+		}
 		if rapid.IntRange(0, 2).Draw(t, "has_skip") == 0 {
 			nd.SkipP1 = genNodeRef(t, n, "skip") + 1
 		}
@@ -290,6 +348,9 @@ func genRoot(t *rapid.T, g GraphDesc, label string, allowAny bool) RootDesc {
 		r.Other = rapid.IntRange(-1, len(g.Ints)-1).Draw(t, label+"_other")
 	}
 	r.SelfRef = rapid.IntRange(0, 2).Draw(t, label+"_self") == 0
+	if len(g.TNodes) > 0 && rapid.IntRange(0, 2).Draw(t, label+"_has_t") == 0 {
+		r.TP1 = rapid.IntRange(0, len(g.TNodes)-1).Draw(t, label+"_t") + 1
+	}
 	if rapid.Bool().Draw(t, label+"_has_all") {
 		r.HasAll = true
 		for j, k := 0, rapid.IntRange(0, 4).Draw(t, label+"_all_len"); j < k; j++ {
@@ -341,6 +402,7 @@ type graphInst struct {
 	nodeMaps []map[string]*GNode
 	tagMaps  []map[string]int
 	ints     []*int
+	tnodes   []*TNode
 }
 
 func (gi *graphInst) node(i int) *GNode {
@@ -400,6 +462,10 @@ func (gi *graphInst) any(a AnyDesc) interface{} {
 		if n := gi.node(a.Node); n != nil && n.Attrs != nil {
 			return n.Attrs
 		}
+	case "edgeval":
+		return PEdge{To: gi.node(a.Node), w: a.Num, tag: fmt.Sprintf("edge%d", a.Num)}
+	case "time":
+		return time.Unix(1700000000+int64(a.Num), 5).In(c03Zone)
 	case "nilmap":
 		return map[string]*GNode(nil)
 	case "nilslice":
@@ -412,6 +478,15 @@ func (gi *graphInst) any(a AnyDesc) interface{} {
 		return fmt.Sprintf("str%d", a.Num)
 	}
 	return nil
+}
+
+var c03Zone = time.FixedZone("C03", 3600)
+
+func (gi *graphInst) tnode(i int) *TNode {
+	if i < 0 || i >= len(gi.tnodes) {
+		return nil
+	}
+	return gi.tnodes[i]
 }
 
 func instantiate(g GraphDesc) *graphInst {
@@ -437,9 +512,26 @@ func instantiate(g GraphDesc) *graphInst {
 		v := v
 		gi.ints = append(gi.ints, &v)
 	}
+	for i := range g.TNodes {
+		gi.tnodes = append(gi.tnodes, &TNode{Name: fmt.Sprintf("t%d", i)})
+	}
+	for i, td := range g.TNodes {
+		tn := gi.tnodes[i]
+		tn.Peer, tn.To = gi.tnode(td.Peer), gi.node(td.To)
+		if td.Tags >= 0 && td.Tags < len(gi.tagMaps) {
+			tn.Tags = gi.tagMaps[td.Tags]
+		}
+		if td.List != nil {
+			tn.List = make([]*TNode, 0, len(td.List))
+			for _, k := range td.List {
+				tn.List = append(tn.List, gi.tnode(k))
+			}
+		}
+	}
 	// pass 1: plain edges and the Attrs maps (so "attrs" payloads can refer to them)
 	for i, nd := range g.Nodes {
 		n := gi.nodes[i]
+		n.T = gi.tnode(nd.TP1 - 1)
 		n.Next = gi.node(nd.Next)
 		n.Skip = gi.node(nd.SkipP1 - 1)
 		if nd.Kids != nil {
@@ -595,6 +687,7 @@ func (gi *graphInst) root(r RootDesc) *GRoot {
 	if r.SelfRef {
 		out.Self = []*GRoot{out, out}
 	}
+	out.T = gi.tnode(r.TP1 - 1)
 	return out
 }
 
@@ -707,6 +800,9 @@ func (tp *topo) pair(in, out reflect.Value, path string, underIface bool, via st
 		}
 	case reflect.Struct:
 		for i := 0; i < in.NumField(); i++ {
+			if !in.Type().Field(i).IsExported() {
+				continue // unexported fields travel with the struct assignment; reflect.DeepEqual compares them
+			}
 			tp.pair(in.Field(i), out.Field(i), path+"."+in.Type().Field(i).Name, false, "field")
 		}
 	}
@@ -730,11 +826,12 @@ func checkTopology(in, out reflect.Value) (*topo, string) {
 // hasCycle reports whether the descriptor graph (edges between nodes through
 // any container) has a directed cycle.
 func hasCycle(g GraphDesc) (cycle, viaIface bool) {
-	n := len(g.Nodes)
+	nn := len(g.Nodes)
+	n := nn + len(g.TNodes) // text-unmarshalable nodes are vertices nn..n-1
 	adj := make([][]int, n)
 	ifaceEdge := map[[2]int]bool{}
 	add := func(i, j int, iface bool) {
-		if j >= 0 && j < n {
+		if j >= 0 && j < nn || j >= nn && j < n && i >= 0 {
 			adj[i] = append(adj[i], j)
 			if iface {
 				ifaceEdge[[2]int{i, j}] = true
@@ -744,7 +841,7 @@ func hasCycle(g GraphDesc) (cycle, viaIface bool) {
 	var anyTargets func(a AnyDesc) []int
 	anyTargets = func(a AnyDesc) []int {
 		switch a.Kind {
-		case "node", "nodearray", "nodeval", "attrs", "selfslice":
+		case "node", "nodearray", "nodeval", "attrs", "selfslice", "edgeval":
 			return []int{a.Node}
 		case "nodeslice", "islice":
 			return a.Nodes
@@ -759,7 +856,23 @@ func hasCycle(g GraphDesc) (cycle, viaIface bool) {
 		}
 		return nil
 	}
+	for k, td := range g.TNodes {
+		if td.Peer >= 0 && td.Peer < len(g.TNodes) {
+			add(nn+k, nn+td.Peer, false)
+		}
+		if td.To < nn {
+			add(nn+k, td.To, false)
+		}
+		for _, l := range td.List {
+			if l >= 0 && l < len(g.TNodes) {
+				add(nn+k, nn+l, false)
+			}
+		}
+	}
 	for i, nd := range g.Nodes {
+		if nd.TP1 > 0 && nd.TP1 <= len(g.TNodes) {
+			add(i, nn+nd.TP1-1, false)
+		}
 		add(i, nd.Next, false)
 		for _, k := range nd.Kids {
 			add(i, k, false)
@@ -889,6 +1002,9 @@ func runC03(c C03Case) vrt.Verdict {
 			if lay.Other != nil {
 				lv.FieldByName("Other").Set(reflect.ValueOf(lay.Other))
 			}
+			if lay.T != nil {
+				lv.FieldByName("T").Set(reflect.ValueOf(lay.T))
+			}
 			return lv
 		}
 		want := &GRoot{All: def.All, Index: def.Index, Pair: def.Pair, Count: def.Count, Other: def.Other}
@@ -900,6 +1016,10 @@ func runC03(c C03Case) vrt.Verdict {
 		}
 		if lay.Other != nil {
 			want.Other = lay.Other
+		}
+		want.T = def.T
+		if lay.T != nil {
+			want.T = lay.T // a text-unmarshalable struct is replaced as a whole
 		}
 		if c.Layer.HasAll {
 			want.All = lay.All
@@ -968,7 +1088,7 @@ func (l *lazySource) Value(_ context.Context, t *dials.Type) (reflect.Value, err
 func TestC03Graphs(t *testing.T) {
 	vrt.Check(t, vrt.Prop[C03Case]{
 		ID: "C03", Name: "graphs",
-		Rule: "object graphs of 0..8 nodes over the fixed family GNode/GLeaf/GRoot with arbitrary edges through struct-field pointers (one of them an exported field tagged dials:\"-\", which stacking skips but the copy must still reproduce), slices, arrays, maps, maps whose values are slices / maps shared with other fields, shared maps / *int, pointers to slices / maps / pointers shared between nodes, back-references to the config root itself, and interface payloads (typed nil map / slice / pointer, *GNode, GNode by value, map[string]*GNode, []*GNode, [1]*GNode, []interface{}, a node's own Attrs map); " +
+		Rule: "object graphs of 0..8 nodes over the fixed family GNode/GLeaf/GRoot/TNode (TNode implements encoding.TextUnmarshaler and has exported pointer / map / slice fields, so it can point at itself) with arbitrary edges through struct-field pointers (one of them an exported field tagged dials:\"-\", which stacking skips but the copy must still reproduce), slices, arrays, maps, maps whose values are slices / maps shared with other fields, shared maps / *int, pointers to slices / maps / pointers shared between nodes, back-references to the config root itself, and interface payloads (typed nil map / slice / pointer, *GNode, GNode by value, a struct by value with unexported fields, a time.Time, map[string]*GNode, []*GNode, [1]*GNode, []interface{}, a node's own Attrs map); " +
 			"copied directly by the deep copier (root *GNode or *GRoot), by Config with the graph in defaults and in a source value, and by a watcher re-stack; oracle: terminates, reflect.DeepEqual, and the in->out map of pointer/map references in fields, elements and map values is a function with a fresh range; " +
 			"non-trivial = the graph has a cycle or a reference with in-degree >= 2; distinct = distinct case JSON",
 		Assumptions: []string{
